@@ -221,7 +221,10 @@ func (t *callTracer) CaptureAspectExit(joinpoint types.JoinPointRunType, result 
 	// reset join point if we exit
 	last := len(t.callstack) - 1
 	t.callstack[last].joinPoint = types.JoinPointRunType_Unknown
-	for i := range t.callstack[last].JoinPoints {
+	// Aspects on one join point run one after the other, so the execution that is
+	// exiting is the most recently entered frame of that join point type - not the
+	// first one, which belongs to an Aspect that has already finished.
+	for i := len(t.callstack[last].JoinPoints) - 1; i >= 0; i-- {
 		if t.callstack[last].JoinPoints[i].Type == joinpoint {
 			t.callstack[last].JoinPoints[i].GasUsed = t.callstack[last].JoinPoints[i].Gas - result.Gas
 			t.callstack[last].JoinPoints[i].processOutput(result.Ret, result.Err)
@@ -342,7 +345,7 @@ func (t *callTracer) CaptureExit(output []byte, gasUsed uint64, err error) {
 	if t.callstack[size-1].joinPoint != types.JoinPointRunType_Unknown {
 		// if currently the call is initiated by aspect, we need to append it
 		// to the calls in aspect frame not current callstack
-		last := len(t.callstack[size-1].JoinPoints)
+		last := len(t.callstack[size-1].JoinPoints) - 1
 		t.callstack[size-1].JoinPoints[last].Calls = append(t.callstack[size-1].JoinPoints[last].Calls, call)
 	} else {
 		// append to callstack otherwise
